@@ -407,6 +407,9 @@ func classifyErrVal(v ssa.Value, at *ssa.BasicBlock, depth int) RetKind {
 	if isNilConst(v) || isNilConst(v0) {
 		return RetSuccess
 	}
+	if c, ok := v.(*ssa.Const); ok && c.Value != nil {
+		return RetError // constant error value (e.g. liberr.Error string constant)
+	}
 	// spilled: classify each reaching store
 	if u, ok := v.(*ssa.UnOp); ok && u.Op == token.MUL {
 		switch a := u.X.(type) {
